@@ -98,7 +98,7 @@ Fixpoint parse_stages (l : list val) : option (list stage) :=
               end
   end.
 
-Definition show_cres (r : cres) : string :=
+Definition show_cres (r : cres Z) : string :=
   match r with
   | CBuilt l => show_list show_slot l
   | CPanicked => "PANIC"
